@@ -2,7 +2,6 @@ package ons
 
 import (
 	"encoding/json"
-	"math/big"
 
 	"github.com/tendermint/tendermint/libs/kv"
 
@@ -194,7 +193,10 @@ func runPurchaseDomain(ctx *action.Context, tx action.RawTx) (bool, action.Respo
 			return false, action.Response{Log: err.Error()}
 		}
 
-		extend = big.NewInt(0).Div(remain.Amount.BigInt(), opt.PerBlockFees.BigInt()).Int64()
+		extend, err = blocksBought(remain.Amount.BigInt(), opt.PerBlockFees.BigInt())
+		if err != nil {
+			return false, action.Response{Log: err.Error()}
+		}
 
 	} else {
 		// calculate expiry from the buying price
@@ -208,6 +210,17 @@ func runPurchaseDomain(ctx *action.Context, tx action.RawTx) (bool, action.Respo
 	}
 
 	// calculate the number of blocks by which to extend the expiry height
+
+	// the expiry height is extended from the current height or from the expiry height the
+	// domain still has, the result must be a height
+	from := ctx.State.Version()
+	if domain.ExpireHeight > from {
+		from = domain.ExpireHeight
+	}
+	_, err = extendHeight(from, extend)
+	if err != nil {
+		return false, action.Response{Log: err.Error()}
+	}
 
 	// minus the domain life charges from the buyer
 	err = ctx.Balances.MinusFromAddress(buy.Buyer, remain)
